@@ -38,7 +38,9 @@ def run(ctx):
              'whose states belong to two MDSs in alternating order, stale entities, context descriptors with several states) '
              'followed by random tails, plus random histories over all transaction kinds (metric, alert, component, '
              'operational, context, waveform, descriptor create/update/delete/re-create, location change; both interfaces) '
-             'on single- and two-MDS MDIBs on the loop-back provider + consumer; after every transaction: provider tables vs provider model, wire reports (parsed by the real '
+             'on single- and two-MDS MDIBs whose InstanceId is absent, 0 or a number, on the loop-back provider + consumer; in a '
+             'third of the cases the provider commits transactions of every kind while the consumer\'s first GetMdib is in '
+             'flight (judged: exact mirror after the first load); after every transaction: provider tables vs provider model, wire reports (parsed by the real '
              'reader) fed to the consumer model vs the real ConsumerMdib tables and notifications, and the mirror oracle '
              '(provider snapshot == consumer snapshot, notifications name exactly the changed entities); distinct = '
              'distinct implementation traces',
